@@ -7,6 +7,9 @@ Se1(d) == [k |-> "se", ja |-> 0, m |-> Pre(<<1, 2>>, d)]
 Se2(d) == [k |-> "se", ja |-> 2, m |-> Pre(<<1, 1>>, d)]
 Rq1(d) == [k |-> "rq", ja |-> 0, kk |-> 1, c |-> Pre(<<<<1, 1>>, <<1, 2>>>>, d)]
 Rq2(d) == [k |-> "rq", ja |-> 1, kk |-> 2, c |-> Pre(<<<<1, 2>>, <<1, 1>>>>, d)]
+\* amplitudes far below one (a^2 = 2^-16): the documented jitter is RELATIVE to the amplitude
+Se3(d) == [k |-> "se", ja |-> -16, m |-> Pre(<<1, 1>>, d)]
+Rq3(d) == [k |-> "rq", ja |-> -16, kk |-> 1, c |-> Pre(<<<<1, 1>>, <<1, 1>>>>, d)]
 Wn == [k |-> "wn", j |-> -2]
 Hn(n) == [k |-> "hn", js |-> Pre(<<-1, 0, -3>>, n)]
 Sum(ps) == [k |-> "sum", parts |-> ps]
@@ -25,7 +28,7 @@ Means(d) == { [k |-> "const", th |-> <<2>>], [k |-> "lin", th |-> Pre(<<1, 2, -1
 VARIABLES X, kn, mf, out
 Init == /\ \/ X \in PointSets /\ kn \in Kernels(Len(X[1]), Len(X))
            \/ X \in CpPointSets /\ kn \in CpKernels(Len(X[1]), Len(X))
-           \/ X = TinySet /\ kn \in {Cp4(1), Cp5(1)}
+           \/ X = TinySet /\ kn \in {Cp4(1), Cp5(1), Se3(1), Rq3(1)}
         /\ mf \in Means(Len(X[1])) /\ out = 0
 Q == Queries(Len(X[1]))
 Next == /\ out = 0 /\ out' = 1 /\ UNCHANGED <<X, kn, mf>>
